@@ -505,6 +505,61 @@ pub fn sites(tier: Tier) -> Vec<Site> {
         ));
     }
 
+    // 3d. text storms: every text-bearing field (fixed and variable, the latter at its maximum length) filled
+    // with {nothing, a, ab, one high byte} + one unit repeated to the end of the field - "any number" of
+    // markers, resets, lone carets, double-byte characters with caret-like or lead-like trail bytes
+    {
+        let units: Vec<Vec<u8>> = vec![
+            b"^L".to_vec(), b"^J".to_vec(), b"^8".to_vec(), b"^".to_vec(), b"^^".to_vec(), b"^Ja".to_vec(), b"^E\xe9".to_vec(),
+            vec![0x83, 0x5e], vec![b'^', b'J', 0x83, 0x5e], vec![0x5e, 0x83], vec![b'^', b'K', 0x94, 0xee],
+            vec![b'^', b'J', 0xfa, 0x5e], vec![b'^', b'H', 0xa1, 0x5e], vec![b'^', b'S', 0x81, 0x5e, b'8'], b"a^C\xf8".to_vec(),
+            b"^L^G^C^E^T^B^J^S^K^H".to_vec(), vec![0xff], vec![0x80], b"^\x00".to_vec(),
+        ];
+        let prefixes: Vec<Vec<u8>> = vec![vec![], b"a".to_vec(), b"ab".to_vec(), vec![0xe9]];
+        let mut targets: Vec<(String, bool, Vec<u8>, usize, usize)> = vec![];
+        for k in &gen.kinds {
+            let mut vals = baseline(k, 1);
+            for (fi, f) in k.fields.iter().enumerate() {
+                if let spec::Ty::VarText { max, .. } = &f.ty {
+                    vals[fi] = spec::Val::S("Z".repeat(max.saturating_sub(4).max(1)));
+                }
+            }
+            let lay = spec::layout(k, &vals);
+            for c in [true, false] {
+                let Some(f) = spec::ref_encode(k, &vals, c) else { continue };
+                for (fi, start, len) in &lay {
+                    if matches!(k.fields[*fi].ty, spec::Ty::Text(_) | spec::Ty::Raw(_) | spec::Ty::VarText { .. }) && *len >= 4 {
+                        targets.push((format!("{} {}", k.name, k.fields[*fi].name), c, f.clone(), *start, *len));
+                    }
+                }
+            }
+        }
+        let per = (units.len() * prefixes.len()) as u64;
+        let total = targets.len() as u64 * per;
+        let targets = Arc::new(targets);
+        sites.push(Site::new(
+            "text-storm",
+            total,
+            "every text-bearing field of every kind (variable ones at their maximum length; both modes) filled with {nothing, a, ab, one high byte} + one of 19 units repeated to the end of the field, followed by a sentinel TINY",
+            move |i, acc| {
+                let (name, compressed, frame, start, len) = &targets[(i / per) as usize];
+                let r = (i % per) as usize;
+                let u = &units[r % units.len()];
+                let p = &prefixes[r / units.len()];
+                let mut fill = p.clone();
+                while fill.len() < *len {
+                    fill.extend_from_slice(u);
+                }
+                fill.truncate(*len);
+                let mut buf = frame.clone();
+                buf[*start..*start + *len].copy_from_slice(&fill);
+                buf.extend_from_slice(if *compressed { &SENTINEL_C } else { &SENTINEL_U });
+                let replay = || json!({"site": "text-storm", "index": i, "field": name, "input": hex(&buf[..buf.len().min(96)])});
+                judge_lazy(*compressed, &buf, i, &replay, acc, false);
+            },
+        ));
+    }
+
     // 4. all short buffers over a 16-symbol alphabet
     let maxlen = if tier == Tier::Thorough { 6 } else { 5 };
     let mut count = 0u64;
